@@ -40,6 +40,9 @@ def qbytes_int_mm(activations: torch.Tensor, weights: torch.Tensor, output_scale
     out_features = weights.shape[0]
     # torch._int_mm works on transposed weights, i.e (in_features, out_features)
     weights = weights.t()
+    if weights.stride() not in ((out_features, 1), (1, in_features)):
+        # ... and on those of its second operand: only row-major or column-major data are safe
+        weights = weights.contiguous()
     output_shape = activations.shape[:-1] + (out_features,)
     activations = activations.reshape(-1, in_features)
     if activations.stride() != (in_features, 1):
